@@ -133,6 +133,30 @@ BUILT = {
             'The paraxial/aberrations/ray_generator helper objects (back reference + private scratch) are not part of the '
             'prescription and are excluded from the snapshot; unseeded random sampling is not compared.',
             'DESIGN.md §4 C13'),
+    'C11': ('reference-model monitor: FFTPSF / FFTMTF / GeometricMTF vs an independent reconstruction of the sampled pupil and an explicit DFT (cross-checked against numpy.fft), closed-form diffraction limit, plotted frequency axis captured from view()',
+            'Exploration: 310 (quick) / ~2.5k (thorough) PSF/MTF cases over samplings 16-256 and grids 64-2048 of both '
+            'parities, infinite and finite conjugates, 0-30 waves of aberration and analytically perfect systems; PSF '
+            'pixelwise at 1e-9 of the peak, energy conservation, Strehl, MTF bounds, perfect-pupil formula on the '
+            'plotted axis within 2/N, cut-off vs the ABCD working F-number, geometric MTF vs the Fourier modulus of the '
+            'separately traced line spread.',
+            'Trusts vkit/oracles/dft.py (matrix DFT cross-checked against fft2 at 1e-11); working F-number = paraxial '
+            '1/(2|n\'u\'|); both sqrt(I) and I/mean pupil amplitude laws accepted (not fixed by the statement).',
+            'DESIGN.md §4 C11'),
+    'C15': ('history/fault monitor: every table row of SensitivityAnalysis / MonteCarlo replayed on a fresh lens built from the spec; lens snapshots before run / after run / after reset; seeded reruns; NaN and ray-failure faults injected without source edits',
+            'Exploration: ~44 (quick) / ~600 (thorough) tolerancing runs (every variable kind and sampler kind, with and '
+            'without compensators, 1-20 trials, extreme perturbations and Failpoint NaN injection): each recorded row '
+            'reproduced at 1e-10 (1e-6 with compensators), nominal perturbations, reproducibility of seeded runs, '
+            'restoration of the nominal prescription after run() and reset().',
+            'Fresh lenses come from vkit.lens.build(spec), never from a copy of the live lens; compensated rows whose '
+            'optimisation is chaotic under a 1e-15 nudge are decided only by the recorded-compensation clause.',
+            'DESIGN.md §4 C15'),
+    'C19': ('round-trip monitor: from_dict(to_dict(L)) and JSON file save/load on generated lenses of every feature combination and after edit histories; dict idempotence, prescription snapshot, bit-identical rays and paraxial values',
+            'Exploration: 216 (quick) / ~11k (thorough) lenses (every shape, medium kind, coating, scatter model, '
+            'aperture, field/wavelength set, polarization, pickups, solves; 40 % after C01 edit histories incl. '
+            'scale_system and a short optimisation) plus the 24 samples; reloaded lens must equal the original in '
+            'prescription and trace 30 rays per wavelength bit-identically.',
+            'Trusts the snapshot of props/c01.py and a scan of to_dict() for non-JSON leaves to classify save failures.',
+            'DESIGN.md §4 C19'),
 }
 
 NOT_YET = {}
